@@ -88,6 +88,10 @@ func gobEncodeItemOrLink(it LinkOrIRI) ([]byte, error) {
 }
 
 func gobEncodeItem(it Item) ([]byte, error) {
+	if IsNil(it) {
+		// nil and typed nil pointers carry no data
+		return []byte{}, nil
+	}
 	if IsIRI(it) {
 		if i, ok := it.(IRI); ok {
 			return []byte(i), nil
